@@ -19,6 +19,7 @@ RULE = ('four Hypothesis sub-checks.  (1) optimality: 20-250 sorted abscissae (u
         'breakpoints) must return a documented status (0, -1 with a changed breakpoint mask, -2, or >0) and finite coefficients, '
         'through fit, repeated fit and iterfit.  Non-trivial: (1) >=3 interior breakpoints and >=1 zero weight; (2) bandwidth >=2 and n > '
         'bandwidth; (3,4) the failure is not at index 0 / a status other than 0 is reached.')
+RULE += '  Also: a second fit on the same object after the abscissa buffer was overwritten in place.'
 ASSUMPTIONS = ['fit() is called with sorted abscissae (its documented precondition; iterfit sorts for it)',
                'optimality tolerance 1e-6 of the data scale for fitted values; coefficient-level relations (zero-weight invariance, linearity) use (1e-9 + 1e-14 cond^2) x scale because pydl solves the normal equations; asserted for cond < 1e4',
                'breakpoints strictly increasing',
